@@ -1,8 +1,10 @@
 import Driver.C11
 import Driver.C06
+import Driver.C01
 /-! `stirdriver <property>`: reads the line protocol of that property on stdin, answers on stdout. -/
 def main (args : List String) : IO UInt32 := do
   match args with
   | ["C11"] => Driver.C11.main; return 0
   | ["C06"] => Driver.C06.main; return 0
+  | ["C01"] => Driver.C01.main; return 0
   | _ => IO.eprintln "usage: stirdriver <C01..C20>"; return 2
